@@ -94,7 +94,7 @@ M0(P, orc, regkeys, accs, uf) ==
       [pc |-> 1, status |-> "run", env |-> [i \in 1..P.nv |-> 0], defd |-> {}, ever |-> {},
        last |-> <<>>, ocur |-> 0, scur |-> 0, log |-> <<>>, fault |-> "none", steps |-> 0,
        regs |-> [key \in regkeys |-> [def |-> FALSE, v |-> 0]],
-       cur |-> [a \in accs |-> 0], uf |-> uf, core |-> 0, rd |-> {}, wr |-> {}, nalloc |-> 0,
+       cur |-> [a \in accs |-> 0], uf |-> uf, core |-> 0, rd |-> {}, wr |-> {}, nalloc |-> 0, cont |-> <<>>,
        mem |-> IF P.dma = 1 THEN [a \in 1..P.memtop |-> IF a <= P.srctop THEN a ELSE 0] ELSE <<>>],
       P.args, ArgVals(P, orc))
 
@@ -168,13 +168,35 @@ StepIf(P, m, i, op) ==
        THEN (IF Len(op.r) = 0 THEN Goto(m, op.end + 1) ELSE Fault(m, "IfNoElse"))
        ELSE Goto(m, op.mid)
 
+(* symbolic buffer contents (P.track = 1): every cell (buffer or view value) holds a term; initially its own id.
+   memref.copy moves the term, linalg.generic writes a fresh term built from the terms it reads. *)
+ContOf(m, v) == IF v \in DOMAIN m.cont THEN m.cont[v] ELSE v
+TrackedOp(P, op) == P.track = 1 /\ op.n \in {"memref.copy", "linalg.generic"}
+NInsOf(op) == IF op.n = "memref.copy" THEN 1 ELSE IF Len(op.iv) >= 1 THEN op.iv[1] ELSE 0
+
+RECURSIVE WriteTerms(_, _, _, _, _, _)
+WriteTerms(uf, cont, outs, base, k, acc) ==   \* returns <<uf, cont>> after writing a fresh term into every output cell
+  IF k > Len(outs) THEN <<uf, cont>>
+  ELSE LET key == <<base, k>>
+           idx == InternIdx(uf, key)
+           uf2 == InternTab(uf, key) IN
+       WriteTerms(uf2, (outs[k] :> (UFBase + idx)) @@ cont, outs, base, k + 1, acc)
+
 (* opaque operation with side effects: an event; results come from the oracle *)
 StepOpaque(P, orc, m, op) ==
   LET vals == Vals(m, op.a)
       res == [k \in DOMAIN op.r |->
                 LET v == OracleVal(orc, m.ocur + k - 1) IN
                 IF P.w[op.r[k]] = 1 THEN v % 2 ELSE v]
-      m1 == Log(m, [k |-> "op", i |-> m.pc, n |-> op.n, s |-> op.sv, vals |-> vals, iv |-> op.iv])
+      tracked == TrackedOp(P, op)
+      nin == NInsOf(op)
+      rt == IF tracked THEN [k \in 1..nin |-> ContOf(m, vals[k])] ELSE <<>>
+      outs == IF tracked THEN SubSeq(vals, nin + 1, Len(vals)) ELSE <<>>
+      wr == IF ~tracked THEN <<m.uf, m.cont>>
+            ELSE IF op.n = "memref.copy" THEN <<m.uf, (outs[1] :> rt[1]) @@ m.cont>>
+            ELSE WriteTerms(m.uf, m.cont, outs, <<"term", <<op.sv[1]>>, rt>>, 1, <<>>)
+      m1 == Log([m EXCEPT !.uf = wr[1], !.cont = wr[2]],
+                [k |-> "op", i |-> m.pc, n |-> op.n, s |-> op.sv, vals |-> vals, iv |-> op.iv, rt |-> rt])
       m2 == IF HasAccfgEffects(op)
             THEN [m1 EXCEPT !.regs = HavocAll(@), !.cur = [a \in DOMAIN @ |-> 0]] ELSE m1
   IN Adv(Def(P, [m2 EXCEPT !.ocur = @ + Len(op.r)], op.r, res))
@@ -309,7 +331,7 @@ StepDma(P, orc, m, op) ==
       two == op.sv[1] = "snax_dma_2d_transfer"
       s == v[1]  d == v[2]  n == v[3]
       ss == IF two THEN v[4] ELSE 0  ds == IF two THEN v[5] ELSE 0  rep == IF two THEN v[6] ELSE 1
-      m1 == Log(m, [k |-> "op", i |-> m.pc, n |-> op.n, s |-> op.sv, vals |-> v]) IN
+      m1 == Log(m, [k |-> "op", i |-> m.pc, n |-> op.n, s |-> op.sv, vals |-> v, iv |-> op.iv, rt |-> <<>>]) IN
   IF n < 0 \/ rep < 0 THEN Fault(m1, "DmaNegativeSize")
   ELSE IF rep > 0 /\ n > 0 /\ ~(\A r \in 0..(rep - 1) : InMem(m, s + r * ss, n) /\ InMem(m, d + r * ds, n)) THEN Fault(m1, "DmaOutOfMemory")
   ELSE Adv([m1 EXCEPT !.mem = Copy2(@, s, d, n, ss, ds, rep),
